@@ -256,6 +256,14 @@ class _Loader(importlib.abc.Loader):
         code = compile(tree, self.path, "exec", dont_inherit=True)
         module.__dict__.update(HOOKS)
         exec(code, module.__dict__)
+        if short == "distribution":
+            # scipy needs the real numpy here; only scalar predicates / elementary functions applied to symbolic numbers
+            # (guards such as np.isclose(sigma, 0) in a constructor) are answered by the shim
+            import numpy as _rnp
+
+            for k, v in list(module.__dict__.items()):
+                if v is _rnp:
+                    module.__dict__[k] = _HybridNumpy(_rnp)
         if short not in NO_NUMPY_SHIM_IN:
             import numpy as _rnp
 
@@ -396,6 +404,28 @@ def restore_state():
                 setattr(owner, name, copy.deepcopy(val))
         except Exception:
             pass
+
+
+class _HybridNumpy:
+    """real numpy, except that a few scalar functions go to the shim when an argument is a symbolic number"""
+
+    _SCALAR = ("isclose", "allclose", "isnan", "isfinite", "isinf", "abs", "absolute", "sqrt", "exp", "log", "maximum", "minimum", "sign")
+
+    def __init__(self, real):
+        self._real = real
+
+    def __getattr__(self, name):
+        f = getattr(self._real, name)
+        if name not in self._SCALAR:
+            return f
+
+        def call(*a, **k):
+            if any(core.is_sym(x) for x in a) or any(core.is_sym(x) for x in k.values()):
+                g_ = getattr(npshim.np, {"absolute": "abs"}.get(name, name))
+                return g_(*a, **k)
+            return f(*a, **k)
+
+        return call
 
 
 class _AllChemStub:
